@@ -36,6 +36,9 @@ xml_expressible(spec) -> (ok, reason) RDF/XML can express the graph (predicates 
 gen_round2(rng, spec) -> dict          a prefix re-binding + new triple to apply to the SAME graph object after a first
                                        round of serialisations (two-round cases; mutates spec: adds a strict-split predicate)
 xml_splittable(iri) -> bool            some split namespace + XML NCName exists
+keywordise(rng, spec) -> spec          the same graph with prefixes and blank-node labels spelled like the syntaxes' keywords
+                                       (a, true, false, base, prefix, PREFIX, BASE, is, of, has, this, e, E, inf, nan …;
+                                       motifs "kw_prefix", "kw_label");  pools KEYWORD_PREFIXES, KEYWORD_LABELS
 bnodes(spec) -> sorted blank-node labels of a spec
 Pools (module constants, extend freely): NAMESPACES, LOCALS, SAFE_LOCALS, WELL_KNOWN, CHAR_POOL, TEXT_FIXED, LANGS,
 DATATYPES (datatype, valid lexical forms, invalid lexical forms), BIND_SETS, BASES, MALFORMED (list defects), MOTIFS,
@@ -721,6 +724,35 @@ def gen_round2(rng, spec):
 
 def bnodes(spec):
     return sorted({x[1] for t in spec["triples"] for x in t if x[0] == "b"})
+
+
+KEYWORD_PREFIXES = ["a", "true", "false", "base", "prefix", "PREFIX", "BASE", "is", "of", "has", "this", "forAll", "forSome",
+                    "keywords", "e", "E", "inf", "nan", "graph", "GRAPH", "id", "type", "list", "set", "value", "context"]
+KEYWORD_LABELS = ["a", "true", "false", "base", "prefix", "PREFIX", "is", "of", "has", "this", "e", "E", "inf", "nan", "b", "x"]
+
+
+def keywordise(rng, spec):
+    """-> a copy of `spec` whose prefixes (for the namespaces its IRIs use) and/or blank-node labels are spelled like
+    keywords of Turtle / N3 / SPARQL / JSON-LD.  The graph is the same up to blank-node renaming."""
+    out = {**spec, "motifs": list(spec.get("motifs", []))}
+    if rng.random() < 0.7:
+        iris = sorted({x[1] for t in spec["triples"] for x in t if x[0] == "i"})
+        nss = sorted({ns for ns in NAMESPACES for i in iris if i.startswith(ns)})
+        taken = {ns for _p, ns in spec.get("prefixes", [])}
+        names = rng.sample(KEYWORD_PREFIXES, min(len(KEYWORD_PREFIXES), len(nss)))
+        extra = [[n, ns] for n, ns in zip(names, nss) if ns not in taken]
+        if extra:
+            have = {p for p, _ns in spec.get("prefixes", [])}
+            out["prefixes"] = [list(x) for x in spec.get("prefixes", [])] + [x for x in extra if x[0] not in have]
+            out["motifs"].append("kw_prefix")
+    labels = bnodes(spec)
+    if labels and (rng.random() < 0.6 or "kw_prefix" not in out["motifs"]):
+        names = rng.sample(KEYWORD_LABELS, min(len(KEYWORD_LABELS), len(labels)))
+        ren = {l: n for l, n in zip(rng.sample(labels, len(names)), names) if n not in labels}
+        if ren:
+            out["triples"] = [[["b", ren.get(x[1], x[1])] if x[0] == "b" else x for x in t] for t in spec["triples"]]
+            out["motifs"].append("kw_label")
+    return out
 
 
 def features(spec):
